@@ -80,7 +80,7 @@ pub fn spec() -> impl Strategy<Value = Spec> {
     let st = (0u8..24, prop_oneof![3 => 0u8..2, 2 => Just(2u8), 1 => Just(3u8), 1 => Just(4u8), 1 => Just(5u8), 1 => Just(6u8)], prop_oneof![6 => Just(0u8), 7 => 1u8..16], 0u8..4).prop_map(|(role, name, binding, variant)| St { role, name, binding, variant });
     (
         (0u8..3, prop_oneof![3 => Just(false), 1 => Just(true)], prop_oneof![4 => Just(false), 1 => Just(true)], vec(0u8..3, 0..=3), any::<u8>(), any::<u8>()),
-        (prop_oneof![1 => Just(false), 1 => Just(true)], 0u8..3, prop_oneof![3 => Just(false), 1 => Just(true)], vec(st, 1..=4), 0u8..3),
+        (prop_oneof![1 => Just(false), 1 => Just(true)], 0u8..3, prop_oneof![3 => Just(false), 1 => Just(true)], vec(st, 1..=4), 0u8..6),
     )
         .prop_map(|((kind, in_class, is_async, mut params, default_mask, ann_mask), (ret, sig, extra_deco, stmts, sibling))| {
             let mut seen = vec![];
@@ -377,6 +377,12 @@ fn nontrivial(s: &Spec) -> bool {
 pub fn check_lib(s: &Spec, info: &mut CaseInfo) -> Outcome {
     let r = render(s);
     let db = FixtureDatabase::new();
+    if s.sibling / 3 == 1 {
+        // a sibling package defines the same fixture names and happens to be analysed first: its
+        // conftest is not visible from the document and must not change any verdict
+        info.classes.push("same names in a sibling package's conftest, analysed first".into());
+        db.analyze_file(PathBuf::from("/vw/c17_sibling/conftest.py"), CONFTEST);
+    }
     db.analyze_file(PathBuf::from("/vw/c17/conftest.py"), CONFTEST);
     let p = PathBuf::from("/vw/c17/test_mod.py");
     db.analyze_file(p.clone(), &r.text);
